@@ -35,7 +35,9 @@ REQUIRED_THEOREMS = [
     # headline theorems restated about the translated definitions
     "translate_bridge", "scale_bridge", "rotate_bridge", "scaleXyz_bridge", "scaleXyz_default_bridge", "flatten_bridge",
     "normalize_bridge", "fitIntoUnitCube_bridge", "translateToOrigin_bridge", "mergeBody_bridge", "mergeRun_bridge",
-    "copy_bridge", "src_copy_switches", "fromArrays_bridge", "fromArrays_alias_free", "reorder_spec", "reorder_then_translate_isolated", "src_translate_round_trip", "src_scale_round_trip", "src_rotate_round_trip", "src_normalize_bbox", "src_transforms_alias_free",
+    "copy_bridge", "src_copy_switches", "fromArrays_bridge", "fromArrays_alias_free", "reorder_spec", "reorder_then_translate_isolated",
+    # round 7: raw data / typed meshes / loaders / rings, and ALL translated producers at once
+    "rawInit_bridge", "instanciateRaw_bridge", "load_bridge", "ring_bridge", "newMesh_fresh", "producers_world", "src_translate_round_trip", "src_scale_round_trip", "src_rotate_round_trip", "src_normalize_bbox", "src_transforms_alias_free",
 ]
 TRUSTED = [
     "Lean 4.33.0 kernel; axioms ⊆ {propext, Classical.choice, Quot.sound}",
@@ -47,7 +49,11 @@ TRUSTED = [
     "`mesh.vertices[i][c] = x`, loops as folds over id_vertices) and proved equal to the model's operations (Props/C06Source.lean); "
     "[round 5] copy is compiled into statement tables (one row per `copy_mesh.<path> = f(mesh.<path>)`, per branch) whose meaning in the "
     "model is `copyByTables` (Model/MeshSource.lean), bridged to copyX; flatten follows the repaired (rebinding) code; [round 6] from_arrays and reorder_vertices are compiled statement "
-    "by statement (fromArrays_bridge: fresh cells; reorder_spec: the result lists the STORED vector objects of its input)",
+    "by statement (fromArrays_bridge: fresh cells; reorder_spec: the result lists the STORED vector objects of its input); [round 7] "
+    "RawMeshData.__init__ (re-wrap SHARES the containers), _compute_dimensionality, Mesh.__init__ (datatypes/base.py), "
+    "_instanciate_raw_mesh_data and load are compiled too; ring / flat_ring as tables of vertex-store sites with the provenance of the "
+    "stored object (the trigonometry is not modelled); producers_world: every translated producer returns a mesh sharing no vector "
+    "with any existing one, or exactly the vectors of its input (reorder_vertices, re-wrap)",
     "floating point: coordinates compared to the exact rational answer with |impl - exact| <= 1e-9*scale + 1e-12 (2e-6*scale when binary32 vertex arrays or parameters are involved); "
     "scipy Rotation.from_matrix on rational orthogonal matrices is trusted to apply that matrix",
     "numpy view/copy rules observed from outside (np.shares_memory, values of every mesh after every op)",
@@ -1310,8 +1316,8 @@ _M, _T, _V, _R, _D = ("mouette/mesh/mesh.py::", "mouette/geometry/transform.py::
 _OOS_VEC = "out-of-scope: vector algebra helper, no mesh state (C12)"
 _OOS_PREP = "out-of-scope: connectivity preparation of a raw mesh (C02)"
 SOURCE_MAP = {
-    _M + "_instanciate_raw_mesh_data": "oracle-only",       # every producer goes through it; outputs inspected for shared vectors
-    _M + "load": "oracle-only", _M + "save": "out-of-scope: file output (C04)",      # loaders are among the 37 monitored producers
+    _M + "_instanciate_raw_mesh_data": "translated",     # instanciateRaw (+ typedMesh from datatypes/base.py Mesh.__init__); instanciateRaw_bridge, producers_world; old:       # every producer goes through it; outputs inspected for shared vectors
+    _M + "load": "translated", _M + "save": "out-of-scope: file output (C04)",      # loaders are among the 37 monitored producers
     _M + "from_arrays": "translated",                       # fromArrays; fromArrays_bridge, fromArrays_alias_free (round 6); + caller-array aliasing clause of the oracle
     _M + "copy": "translated",                              # statement tables copyAttrBranch / copyDataBranch / copyConnBranch; copy_bridge
     _M + "merge": "translated",                             # mergeBody / mergeRun; mergeBody_bridge, mergeRun_bridge, gen_merge_eq
@@ -1327,13 +1333,14 @@ SOURCE_MAP = {
     _V + "Vec.__new__": "modelled",                         # view-vs-copy rule: rebinding allocates, Vec(x) of an array is a view (MeshHeap)
     _V + "Vec.zeros": "modelled",                           # default origin V3.zero
     _V + "Vec.x": "modelled", _V + "Vec.y": "modelled", _V + "Vec.z": "modelled",   # components used by scale_xyz
-    _R + "ring": "oracle-only", _R + "flat_ring": "oracle-only",      # producers: no vector object under two vertex ids
-    _D + "__init__": "oracle-only", _D + "id_vertices": "modelled",     # `range(len(vertices))`: MeshSrc.idVertices
+    _R + "ring": "translated", _R + "flat_ring": "translated",      # vertex-store sites with provenance (the trigonometry is NOT modelled); ring_bridge, producers_world; old:      # producers: no vector object under two vertex ids
+    _D + "__init__": "translated", _D + "id_vertices": "modelled",       # rawInit (re-wrap SHARES the containers); rawInit_bridge     # `range(len(vertices))`: MeshSrc.idVertices
     _D + "_prepare_vertices": "oracle-only",                            # Vec(x) views of caller rows: the from_arrays / raw families
 }
+SOURCE_MAP[_D + "_compute_dimensionality"] = "translated"          # rawDim; instanciateRaw_bridge
 for _n in ("from_complex", "random", "X", "Y", "Z", "xy", "norm", "dot", "outer", "normalize", "normalized"):
     SOURCE_MAP[_V + "Vec." + _n] = _OOS_VEC
-for _n in ("id_edges", "id_faces", "id_cells", "id_facecorners", "id_cellcorners", "dimensionality", "_compute_dimensionality", "prepare",
+for _n in ("id_edges", "id_faces", "id_cells", "id_facecorners", "id_cellcorners", "dimensionality", "prepare",
            "_prepare_edges", "_prepare_edges.is_valid", "_prepare_faces", "_generate_face_corners", "_prepare_cells", "_generate_cell_corners",
            "_generate_cell_faces", "_complete_edges_from_faces", "_complete_faces_from_cells"):
     SOURCE_MAP[_D + _n] = _OOS_PREP
